@@ -2,6 +2,8 @@
    and BaseFacts.v.  Strings and byte arrays are modelled as the list of their bytes (embedded NULs
    included; the terminating NUL of a string is implicit), so create/copy are the identity on the
    content: that part of the property is tied by the correspondence run (strrt/bart observations). *)
+From Sbdf Require Import ImpCall Gen.Prog ImpFacts ImpFacts7 ImpFactsFrame ImpFactsCmp.
+From Coq Require Import List.
 From Sbdf Require Import Obj BaseFacts VaFacts EqFacts.
 
 Theorem C15_obj_eq_iff_equal : forall a b, obj_wf a -> obj_wf b -> (obj_eq a b = 1 <-> a = b).
@@ -50,3 +52,21 @@ Example C15_nonvacuous :
   obj_eq {| oty := SBDF_STRINGTYPEID; oelems := [[97; 98; 99]] |} {| oty := SBDF_STRINGTYPEID; oelems := [[97; 98; 100]] |} = 0 /\
   str_cmp [0; 128] [0; 127] = 1.
 Proof. split; [left; reflexivity|split; reflexivity]. Qed.
+
+(* ---- the comparison helpers from the source.  sbdf_str_cmp (src/sbdfstring.c) and sbdf_ba_memcmp
+   (src/bytearray.c) with sbdf_str_len / sbdf_ba_get_len / sbdf_get_array_length, translated on every
+   run; memcmp is a primitive of the interpreter (the sign of the first differing unsigned byte).
+   For every two strings / byte arrays stored the way the library stores them (embedded NULs
+   included - the stored length decides, not a terminator) the sign of the result is lex_cmp: zero
+   exactly for equal content, a proper prefix first. *)
+Theorem C15_source_str_cmp : forall a b, zlen a + 1 < 2147483648 -> zlen b + 1 < 2147483648 ->
+  exists f0, forall f, (f0 <= f)%nat -> exists v fin,
+    callE prog_env f prog_sbdf_str_cmp [VPtr RIn 4; VPtr RIn (zlen a + 9)] (two_str a b) 0 = OReturn (VInt v) fin /\ Z.sgn v = str_cmp a b.
+Proof. exact str_cmp_source. Qed.
+Print Assumptions C15_source_str_cmp.
+
+Theorem C15_source_ba_memcmp : forall a b, zlen a < 2147483648 -> zlen b < 2147483648 ->
+  exists f0, forall f, (f0 <= f)%nat -> exists v fin,
+    callE prog_env f prog_sbdf_ba_memcmp [VPtr RIn 4; VPtr RIn (zlen a + 8)] (two_ba a b) 0 = OReturn (VInt v) fin /\ Z.sgn v = lex_cmp a b.
+Proof. exact ba_memcmp_source. Qed.
+Print Assumptions C15_source_ba_memcmp.
